@@ -69,7 +69,20 @@ TOL_CURVE = 1e-2
 SCALE_SUFFIX = ":scale"
 
 
+def _preload():
+    """The model modules are imported lazily by the library; hypothesis (>= 6.1xx) mixes numeric constants found in
+    the source of every loaded non-site-packages module into its draws, so the set of loaded modules must not depend
+    on which cases ran before in the same process (determinism of a run)."""
+    for m in _MODELS:
+        get_isotherm_model(m)
+    K.backend_table()
+
+
+_preload()
+
+
 def worker_init():
+    _preload()
     K.reset_registries()
 
 
@@ -337,14 +350,19 @@ def kf_fit_scale_dependence(check_name, desc, viol):
                                                 "unit_covariance" + SCALE_SUFFIX)
 
 
-def kf_temkin_theta(check_name, desc, viol):
-    """KF-C12-3: TemkinApprox data generated with tht > 1: the fit started at tht = 0 (the lower bound) stalls in the
-    K-tht valley with 1-7 % misfit, in any units (also in the scale-free run, hence the plain tag)."""
+def kf_temkin_valley(check_name, desc, viol):
+    """KF-C12-3: TemkinApprox fits end in secondary minima of the K-tht valley (success reported, 1-11 % misfit), in
+    any units and also in the scale-free run (hence the plain tag): (i) data generated with tht > 1 (the start is
+    tht = 0, the lower bound); (ii) rows in descending pressure order (a desorption branch taken from a point isotherm:
+    the starting guess is computed from the first row), any tht."""
     if check_name not in ("exact_recovery", "point_model", "unit_covariance"):
         return False
     spec = desc.get("spec", {})
-    return (spec.get("model") == "TemkinApprox" and spec.get("shape", {}).get("tht", 0.0) > 1.0
-            and viol.tag in ("exact_not_reproduced", "refit_differs", "unit_covariance"))
+    if spec.get("model") != "TemkinApprox" or viol.tag not in ("exact_not_reproduced", "refit_differs", "unit_covariance"):
+        return False
+    if spec.get("shape", {}).get("tht", 0.0) > 1.0:
+        return True
+    return check_name == "point_model" and desc.get("branch") == "des" and desc.get("points") == "isotherm"
 
 
 def kf_celsius_dubinin(check_name, desc, viol):
@@ -796,12 +814,12 @@ _META = {"user": "vérif", "k1": 3, "comment": "a b", "flag": True, "x": 1.5}
 
 def strat_point_model():
     return st.builds(
-        lambda build, pts, branch, tunit, ptsu, mkeys, spec, u, at, mat: {
-            "build": build, "points": pts, "branch": branch, "points_u": ptsu, "meta_keys": mkeys, "spec": spec,
+        lambda build, pts, branch, tunit, ptsg, mkeys, spec, u, at, mat: {
+            "build": build, "points": pts, "branch": branch, "points_grid": ptsg, "meta_keys": mkeys, "spec": spec,
             "units": dict(u, temperature_unit=tunit), "adsorbate": at["adsorbate"], "material": mat},
         st.sampled_from(["fit", "fit", "params"]), st.sampled_from(["default", "list", "isotherm", "loading"]),
         st.sampled_from(["ads", "ads", "des"]), st.sampled_from(["K", "K", "°C"]),
-        st.lists(st.floats(0.0, 1.0), min_size=8, max_size=20, unique=True),
+        _grid(),
         st.lists(st.sampled_from(sorted(_META)), max_size=3, unique=True), exact_spec(natural_only=True), S.units(), S.ads_T(),
         S.material())
 
@@ -843,15 +861,18 @@ def check_point_model(desc, ctx):
         inst = get_isotherm_model(model, parameters=dict(params), pressure_range=(float(p.min()), float(p.max())),
                                   loading_range=(float(l.min()), float(l.max())))
         mi = pygaps.ModelIsotherm(model=inst, branch=branch, **common())
+    first_ok = desc["build"] == "params" or _misfit(mi, p, l) <= TOL_CURVE
     pr = tuple(map(float, mi.model.pressure_range))
     # --- the point isotherm
     pts = desc["points"]
     if pts == "loading" and model not in CLOSED_INVERSE:
         pts = "list"
-    u = np.sort(np.array(desc["points_u"], dtype=float))
+    # requested abscissae: a second grid of 8-60 points spanning the range the model was built on
+    g = desc["points_grid"]
+    uu = _grid_u(g)
+    u = (uu - uu[0]) / (uu[-1] - uu[0])
     req_p = pr[0] + u * (pr[1] - pr[0])
-    if model in RELATIVE_ONLY:
-        req_p = np.clip(req_p, 1e-6, None)
+    req_p[-1] = pr[1]
     if pts == "default":
         pt = pygaps.PointIsotherm.from_modelisotherm(mi)
         exp_p = np.linspace(pr[0], pr[1], 60)
@@ -859,13 +880,14 @@ def check_point_model(desc, ctx):
         pt = pygaps.PointIsotherm.from_modelisotherm(mi, pressure_points=req_p.tolist())
         exp_p = req_p
     elif pts == "isotherm":
-        # an isotherm in the same units with rows on both branches; only the rows of the model's branch are used
-        k = len(req_p) // 2
-        bb = [False] * k + [True] * (len(req_p) - k)
-        pp = np.concatenate([req_p[:k], req_p[k:][::-1]])
+        # an isotherm in the same units with interleaved rows on both branches (each spans the whole range); only the
+        # rows of the model's branch may be used
+        pa, pdes = req_p[0::2], req_p[1::2][::-1]
+        bb = [False] * len(pa) + [True] * len(pdes)
+        pp = np.concatenate([pa, pdes])
         other = pygaps.PointIsotherm(pressure=pp.tolist(), loading=(np.arange(len(pp)) + 1.0).tolist(), branch=bb, **common())
         pt = pygaps.PointIsotherm.from_modelisotherm(mi, pressure_points=other)
-        exp_p = pp[:k] if branch == "ads" else pp[k:]
+        exp_p = pa if branch == "ads" else pdes
     else:
         exp_p = None
         ends = np.asarray(mi.model.loading(np.array(pr)), dtype=float)
@@ -923,7 +945,10 @@ def check_point_model(desc, ctx):
     if pt.temperature != mi.temperature:
         raise Violation(f"{what}: temperature {pt.temperature} K != {mi.temperature} K", tag="point_metadata")
     ctx.label("build:" + desc["build"], "points:" + pts, "model:" + model, "tunit:" + units["temperature_unit"])
-    # --- refit
+    # --- refit (claimed for curves inside the generator's windows: a fitted model must have reproduced its data)
+    if not first_ok:
+        ctx.label("first_fit_poor")
+        return
     if len(got_p) < 8 or not np.all(np.isfinite(got_l)) or not got_l.max() > got_l.min() or not np.all(got_l > 0):
         return
     try:
